@@ -40,21 +40,30 @@ def walk(n, lo=None, hi=None, depth=0):
     if n._height!=max(hl,hr)+1: raise AssertionError(f"stale height at {n._data}")
     if n._leftSize!=sl or n._rightSize!=sr: raise AssertionError(f"stale size at {n._data}")
     return (max(hl,hr)+1, sl+sr+1)
-def check(ops):
-    """returns None if the property holds along the history, else a reason"""
+def check(ops, dense=True):
+    """returns None if the property holds along the history, else a reason.  dense: inspect the whole set after every operation;
+    sparse: only what the history itself asks (membership tests are operations of the history), full inspection at the end — an
+    implementation may keep state between calls that frequent inspection would refresh"""
     ds=DrawSet(); ref=set()
     for k,op in enumerate(ops):
+        last = k == len(ops) - 1
         try:
-            if op[0]=='add': ds.add(op[1]); ref.add(op[1])
+            if op[0]=='init':
+                inc=[tuple(x) if isinstance(x, list) else x for x in op[1]]; exc=None if op[2] is None else [tuple(x) if isinstance(x, list) else x for x in op[2]]
+                ds=DrawSet(inc, exc); ref=set(inc)-set(exc or [])
+            elif op[0]=='in':
+                if (op[1] in ds)!=(op[1] in ref): return f"op {k}: membership of {op[1]}"
+            elif op[0]=='add': ds.add(op[1]); ref.add(op[1])
             elif op[0]=='discard': ds.discard(op[1]); ref.discard(op[1])
             elif op[0]=='remove':
                 try: ds.remove(op[1]); ok=True
                 except KeyError: ok=False
                 if ok != (op[1] in ref): return f"op {k}: remove KeyError behaviour"
                 ref.discard(op[1])
+            if not dense and not last: continue
             if list(ds)!=sorted(ref): return f"op {k}: contents {list(ds)} != {sorted(ref)}"
             if len(ds)!=len(ref) or ds.empty()!=(not ref): return f"op {k}: len/empty"
-            for x in list(ref)[:3]+[op[1]]:
+            for x in list(ref)[:3]+([op[1]] if op[0] != 'init' else []):
                 if (x in ds)!=(x in ref): return f"op {k}: membership of {x}"
             walk(ds._root)
             if ref:
@@ -66,29 +75,33 @@ def check(ops):
         except AssertionError as ex: return f"op {k}: {ex}"
         except Exception as ex: return f"op {k}: {type(ex).__name__}: {ex}"
     return None
+def both(ops):
+    return check(ops, True) or check(ops, False)
 def shrink(ops):
-    ops=list(ops); reason=check(ops)
+    ops=list(ops); reason=both(ops)
     changed=True
     while changed:
         changed=False
         for i in range(len(ops)):
             cand=ops[:i]+ops[i+1:]
-            r=check(cand)
+            r=both(cand)
             if r: ops, reason, changed = cand, r, True; break
     return ops, reason
 if __name__=='__main__':
     seed, budget = int(sys.argv[1]), int(sys.argv[2])
     cands=[]
-    def tup(o): return (o[0], tuple(o[1]) if isinstance(o[1], list) else o[1])
-    if len(sys.argv)>3: cands=[[tup(o) for o in h if o[0] in('add','discard','remove')] for h in json.load(open(sys.argv[3]))]
+    def tup(o): return tuple(o) if o[0]=='init' else (o[0], tuple(o[1]) if isinstance(o[1], list) else o[1])
+    if len(sys.argv)>3: cands=[[tup(o) for o in h if o[0] in('add','discard','remove','in','init')] for h in json.load(open(sys.argv[3]))]
     rnd=random.Random(seed)
     for _ in range(budget):
         U=rnd.choice([4,8,16]); pair=rnd.random()<0.25
         def key():
             k=rnd.randrange(U); return (k//4,k%4) if pair else k
-        cands.append([(rnd.choice(['add','add','discard','remove']), key()) for _ in range(rnd.randint(5,60))])
+        h=[(rnd.choice(['add','add','discard','remove','in']), key()) for _ in range(rnd.randint(5,60))]
+        if rnd.random()<0.3: h=[('init', [key() for _ in range(rnd.randint(0,10))], None if rnd.random()<0.5 else [key() for _ in range(3)])]+h
+        cands.append(h)
     for ops in cands:
-        r=check(ops)
+        r=both(ops)
         if r:
             ops,r=shrink(ops); print(json.dumps(dict(found=True, history=ops, reason=r, signature='drawset:'+r.split(': ',1)[-1].split(' ')[0]))); sys.exit(0)
     print(json.dumps(dict(found=False, tried=len(cands))))
